@@ -5,7 +5,7 @@
 From Coq Require Import ZArith List Bool PArith FMapPositive Lia.
 From Tickit Require Import LifeDefs LifeLemmas LifeChains LifeInv LifePure LifeWalks LifeRelink LifeRemove LifeClose
   LifeQueue LifeDestroy LifeAttach LifeOps LifeFlush LifeFate LifeSpec LifeProofs LifeAgree LifeSpecEv LifeTrace
-  LifeAgreeEv LifeUnfold.
+  LifeAgreeEv LifeUnfold LifeBridge LifeNorm.
 Import ListNotations.
 Local Open Scope Z_scope.
 
@@ -92,10 +92,25 @@ Proof.
   induction l1 as [|o l1 IH]; intros l2 g; cbn; [reflexivity|]. destruct (estep g o); [apply IH|reflexivity].
 Qed.
 
-Definition ill (h : heap) : Prop := echeck e0 (rev (tr h)) = None.
+(* the trace is no longer one of a well-behaved client: the discipline accepts a prefix and then rejects a call OF THE
+   CLIENT (never a frame reference of the library) *)
+Definition ill (h : heap) : Prop :=
+  exists l1 o l2 g, rev (tr h) = l1 ++ o :: l2 /\ echeck e0 l1 = Some g /\ estep g o = None /\ is_client o = true.
+
+Lemma ill_echeck : forall h, ill h -> echeck e0 (rev (tr h)) = None.
+Proof. intros h (l1 & o & l2 & g & E & H1 & H2 & _). rewrite E, echeck_app, H1. cbn. rewrite H2. reflexivity. Qed.
 
 Lemma ill_ext : forall h h' l, ill h -> tr h' = l ++ tr h -> ill h'.
-Proof. intros h h' l H E. unfold ill in *. rewrite E, rev_app_distr, echeck_app, H. reflexivity. Qed.
+Proof.
+  intros h h' l (l1 & o & l2 & g & E & H1 & H2 & H3) Et. exists l1, o, (l2 ++ rev l), g.
+  split; [rewrite Et, rev_app_distr, E, <- app_assoc; reflexivity|auto].
+Qed.
+
+Lemma ill_now : forall h h1 o g, echeck e0 (rev (tr h)) = Some g -> tr h1 = o :: tr h -> estep g o = None ->
+  is_client o = true -> ill h1.
+Proof.
+  intros h h1 o g Hg Et Hs Hc. exists (rev (tr h)), o, [], g. split; [rewrite Et; reflexivity|auto].
+Qed.
 
 (* ---- frames ---- *)
 (* [F]: the windows (by index) that dispatch frames hold, the one to be released first at the head *)
@@ -473,8 +488,8 @@ Proof.
     split; [apply Hag; destruct o; cbn in Hef; try discriminate; exact Heff|]. split; [exact Hfr'|].
     apply (FS_shrinks g g' F HF); [apply Hfr|exact Hps].
   - (* the client had no right to make it: the trace is no longer one of a well-behaved client *)
-    destruct (run_op fixed fuel o h) as [u h'| |]; [left| |exact I]; unfold ill;
-      rewrite (echeck_logged h _ o g Hg Htr), Hs; reflexivity.
+    assert (Hcl : is_client o = true) by (destruct o; cbn in Hef |- *; congruence).
+    destruct (run_op fixed fuel o h) as [u h'| |]; [left| |exact I]; eapply ill_now; eauto.
 Qed.
 
 (* ---- the read-only walks of the dispatch functions ---- *)
@@ -1551,17 +1566,17 @@ Proof.
 Qed.
 
 (* a client call that dispatches: it is logged; the discipline accepts it or the trace is no longer a client's *)
-Lemma logged_call : forall F h o (c : eghost -> bool), good F h ->
+Lemma logged_call : forall F h o (c : eghost -> bool), good F h -> is_client o = true ->
   (forall g, estep g o = if c g then Some g else None) ->
   let h1 := mkHeap (wins h) (reqs h) (rx h) (nextw h) (nextq h) (dlog h) (uninit_seen h) (o :: tr h) in
   ill h1 \/ (good F h1 /\ exists g, agreeE g h /\ c g = true).
 Proof.
-  intros F h o c (g & Hg & HI & AG & Hfr & HF) Hs h1.
+  intros F h o c (g & Hg & HI & AG & Hfr & HF) Hcl Hs h1.
   destruct (c g) eqn:Ec.
   - right. split; [|exists g; auto]. exists g.
     split; [rewrite (echeck_logged h h1 o g Hg eq_refl), Hs, Ec; reflexivity|]. split; [apply hinv_log; exact HI|].
     split; [|split; assumption]. destruct AG as [L C]. constructor; [exact L|exact C].
-  - left. unfold ill. rewrite (echeck_logged h h1 o g Hg eq_refl), Hs, Ec. reflexivity.
+  - left. apply (ill_now h h1 o g Hg eq_refl); [rewrite Hs, Ec; reflexivity|exact Hcl].
 Qed.
 
 Lemma usable_live : forall F h g w, good F h -> agreeE g h -> eusable g (idx w) = true -> anc h w root.
@@ -1578,7 +1593,7 @@ Proof.
   rewrite run_op_F. cbn [v_events_asis fixed]. destruct o; cbn in Hef; try discriminate.
   - (* OFocus: tickit_window_take_focus *)
     unfold bind at 1. cbn [log_op].
-    destruct (logged_call F h (OFocus w) (fun g => eusable g (idx w)) G (fun g => eq_refl)) as [Hi|[G1 (g & AG & Hu)]];
+    destruct (logged_call F h (OFocus w) (fun g => eusable g (idx w)) G eq_refl (fun g => eq_refl)) as [Hi|[G1 (g & AG & Hu)]];
       [apply dok_ill; [text_auto|exact Hi]|].
     set (h1 := mkHeap (wins h) (reqs h) (rx h) (nextw h) (nextq h) (dlog h) (uninit_seen h) (OFocus w :: tr h)) in *.
     assert (Hl : findw h1 w <> None) by (change (findw h w <> None); eapply anc_live_l; eapply usable_live; eauto).
@@ -1586,7 +1601,7 @@ Proof.
     intros F' h2 G2 Hpf. apply S16; [exact G2|exact Hpf|]. intros ch E. discriminate.
   - (* OFlush *)
     unfold bind at 1. cbn [log_op].
-    destruct (logged_call F h (OFlush w) (fun g => Nat.eqb (idx w) 0 && eusable g 0) G (fun g => eq_refl)) as [Hi|[G1 (g & AG & Hu)]];
+    destruct (logged_call F h (OFlush w) (fun g => Nat.eqb (idx w) 0 && eusable g 0) G eq_refl (fun g => eq_refl)) as [Hi|[G1 (g & AG & Hu)]];
       [apply dok_ill; [auto|exact Hi]|].
     set (h1 := mkHeap (wins h) (reqs h) (rx h) (nextw h) (nextq h) (dlog h) (uninit_seen h) (OFlush w :: tr h)) in *.
     apply andb_prop in Hu. destruct Hu as [E0 Hu]. apply Nat.eqb_eq in E0.
@@ -1611,14 +1626,14 @@ Proof.
     apply S9; assumption.
   - (* OGeom: tickit_window_set_geometry *)
     unfold bind at 1. cbn [log_op].
-    destruct (logged_call F h (OGeom w) (fun g => eusable g (idx w)) G (fun g => eq_refl)) as [Hi|[G1 (g & AG & Hu)]];
+    destruct (logged_call F h (OGeom w) (fun g => eusable g (idx w)) G eq_refl (fun g => eq_refl)) as [Hi|[G1 (g & AG & Hu)]];
       [apply dok_ill; [auto|exact Hi]|].
     apply S11; [exact G1|]. change (findw h w <> None). eapply anc_live_l. eapply usable_live; eauto.
   - (* OMove: tickit_window_reposition *)
     unfold bind at 1. cbn [log_op].
     change (log_op (OFrameRef w) ;;; window_ref w) with (frame_run f (OFrameRef w)).
     change (log_op (OFrameUnref w) ;;; unref fixed f w) with (frame_run f (OFrameUnref w)).
-    destruct (logged_call F h (OMove w) (fun g => eusable g (idx w)) G (fun g => eq_refl)) as [Hi|[G1 (g & AG & Hu)]];
+    destruct (logged_call F h (OMove w) (fun g => eusable g (idx w)) G eq_refl (fun g => eq_refl)) as [Hi|[G1 (g & AG & Hu)]];
       [apply dok_ill; [text_auto; apply text_frame_run|exact Hi]|].
     set (h1 := mkHeap (wins h) (reqs h) (rx h) (nextw h) (nextq h) (dlog h) (uninit_seen h) (OMove w :: tr h)) in *.
     assert (Hl : findw h1 w <> None) by (change (findw h w <> None); eapply anc_live_l; eapply usable_live; eauto).
@@ -1713,7 +1728,7 @@ Theorem events_no_fault : forall fuel l f step hf,
   run_script fixed fuel l = VFault f step hf -> wf_trace (tr hf) = false.
 Proof.
   intros fuel l f step hf Hr. pose proof (run_script_events fuel l O (heap0 fixed) (or_introl good_heap0)) as H.
-  unfold run_script in Hr. rewrite Hr in H. unfold wf_trace. unfold ill in H. rewrite H. reflexivity.
+  unfold run_script in Hr. rewrite Hr in H. unfold wf_trace. rewrite (ill_echeck hf H). reflexivity.
 Qed.
 
 (* ... and a run that completes within the discipline ends in a heap that satisfies the invariant, agrees with the
@@ -1726,7 +1741,7 @@ Theorem events_completed : forall fuel l h,
 Proof.
   intros fuel l h Hr Hwf. pose proof (run_script_events fuel l O (heap0 fixed) (or_introl good_heap0)) as H.
   unfold run_script in Hr. rewrite Hr in H. destruct H as [G|Hi].
-  2:{ unfold wf_trace in Hwf. unfold ill in Hi. rewrite Hi in Hwf. discriminate. }
+  2:{ unfold wf_trace in Hwf. rewrite (ill_echeck h Hi) in Hwf. discriminate. }
   destruct G as (g & Hg & HI & AG & [Hfr _] & _). split; [exact HI|]. exists g. split; [exact Hg|]. split; [exact AG|].
   split; [intros i x Hn; rewrite (Hfr i x Hn); reflexivity|].
   intro Hd. apply all_released; [exact HI|]. intros a c Hf. exfalso.
@@ -1779,3 +1794,59 @@ Lemma efg_nonvacuous : exists h,
   run_script fixed 80 efg_demo = VOk h /\ wf_trace (tr h) = true /\ heap_empty h = true /\
   (12 <= length (filter (fun o => match o with OFrameRef _ => true | _ => false end) (tr h)))%nat.
 Proof. vm_compute. eexists. split; [reflexivity|]. split; [reflexivity|]. split; [reflexivity|]. lia. Qed.
+
+(* ---- THE FULL STATEMENT, with the client's side stated by the predictive discipline of LifeSpec.v (the oracle of the
+        check): the bridge of LifeNorm.v turns "the observing discipline rejects a call of the client" into "the
+        predictive discipline rejects the client's calls" ---- *)
+Definition calls (h : heap) : list op := filter is_client (rev (tr h)).
+
+Lemma ill_client : forall h, ill h -> wf_client (calls h) = false.
+Proof.
+  intros h (l1 & o & l2 & g & E & H1 & H2 & H3). unfold calls. rewrite E. eapply bridge; eauto.
+Qed.
+
+(* any history -- events of all five kinds, handlers making any calls at any depth --, any fuel: if the calls that were
+   executed (those made by handlers included) are those of a well-formed client, the model does not fault *)
+Theorem full_no_fault : forall fuel l f step hf,
+  run_script fixed fuel l = VFault f step hf -> wf_client (calls hf) = false.
+Proof.
+  intros fuel l f step hf Hr. pose proof (run_script_events fuel l O (heap0 fixed) (or_introl good_heap0)) as H.
+  unfold run_script in Hr. rewrite Hr in H. apply ill_client. exact H.
+Qed.
+
+(* ... and a run that completes ends in a heap that satisfies the invariant and agrees with the predictive ghost state
+   of its calls: once that says that every reference has been dropped, nothing is allocated *)
+Theorem full_all_released : forall fuel l h gp,
+  run_script fixed fuel l = VOk h -> gcheck g0 (calls h) = Some gp ->
+  hinv [] h /\ (all_dropped gp = true -> heap_empty h = true).
+Proof.
+  intros fuel l h gp Hr Hg. pose proof (run_script_events fuel l O (heap0 fixed) (or_introl good_heap0)) as H.
+  unfold run_script in Hr. rewrite Hr in H. destruct H as [G|Hi].
+  2:{ pose proof (ill_client h Hi) as Hw. unfold wf_client in Hw. rewrite Hg in Hw. discriminate. }
+  destruct G as (g & He & HI & AG & [Hfr _] & _). split; [exact HI|].
+  destruct (bridge_accept _ g gp He Hg) as [-> HIe].
+  intro Hd. apply all_released; [exact HI|]. intros a c Hf. exfalso.
+  (* a live window has a client reference (no frame is left), and so has its parent, and so on to the root: all of them are
+     alive in the normal form *)
+  assert (Halive : forall n i x y, (i < n)%nat -> nth_error g i = Some x -> nth_error (norm g) i = Some y ->
+            findw h (addr_of i) <> None -> 0 < g_cnt y).
+  { induction n as [|n IHn]; intros i x y Hlt Hx Hy Hl; [lia|].
+    destruct (live_some h _ Hl) as [ci Hci].
+    pose proof (ae_cells g h AG i x Hx) as C. rewrite Hci in C. destruct C as (C1 & C2 & C3 & C4).
+    pose proof (hi_ref [] h HI _ ci Hci (fun z => z)) as Hr1. rewrite (Hfr i x Hx) in C1. cbn in C1.
+    apply (norm_entry g i x y Hx Hy); [lia|]. intros p yp Ep Hyp. rewrite Ep in C4. cbn in C4.
+    assert (Hpl : findw h (addr_of p) <> None) by exact (hi_parent [] h HI (addr_of i) ci (addr_of p) Hci (eq_sym C4)).
+    assert (Hplt : (p < i)%nat) by (apply addr_lt; exact (hi_parent_lt [] h HI (addr_of i) ci (addr_of p) Hci (eq_sym C4))).
+    destruct (nth_error g p) as [xp|] eqn:Exp.
+    - apply (IHn p xp yp); [lia|exact Exp|exact Hyp|exact Hpl].
+    - exfalso. apply nth_error_None in Exp. assert ((p < length g)%nat); [|lia].
+      rewrite <- (length_norm g). apply nth_error_Some. congruence. }
+  destruct (agreeE_live_cell g h HI AG a c Hf) as (x & Hx & _).
+  destruct (nth_error (norm g) (idx a)) as [y|] eqn:Ey.
+  - assert (Hl : findw h (addr_of (idx a)) <> None) by (rewrite addr_idx; congruence).
+    pose proof (Halive (S (idx a)) (idx a) x y ltac:(lia) Hx Ey Hl) as Hpos.
+    unfold all_dropped in Hd. rewrite forallb_forall in Hd.
+    assert (Hin : In y (norm g)) by (eapply nth_error_In; eauto). specialize (Hd y Hin). apply Z.eqb_eq in Hd. lia.
+  - apply nth_error_None in Ey. rewrite length_norm in Ey. assert ((idx a < length g)%nat); [|lia].
+    apply nth_error_Some. congruence.
+Qed.
